@@ -293,10 +293,22 @@ def check_selection(chk, prog, env, model, tabs):
             return [(st, NULL if envval is None else Str(envval))]
         it = Interp(prog, UNIT, model=model, hooks={'getenv': h_getenv, 'fprintf': lambda it, st, a, nd: [(st, Int(0))]})
         st = State()
-        st.mem[(('glob', 'jwt_ops'), '')] = cur
+        # jwt_init runs once, as the library's constructor: jwt_ops still has the value of its static initialiser (or NULL without one)
+        gd = u.globals.get('jwt_ops')
+        if gd is None:
+            raise AnalysisBroken('global jwt_ops is no longer defined in %s' % UNIT)
+        ginit = [c for c in gd.get('inner', ()) if not c['kind'].endswith('Attr') and not c['kind'].endswith('Comment')]
+        if 'init' in gd and ginit:
+            r0 = it.ev(ginit[-1], st)
+            st, v0 = r0[0]
+        else:
+            v0 = NULL
+        st.mem[(('glob', 'jwt_ops'), '')] = v0
         res = it.run('jwt_init', [], st)
         for s, rv in res:
             final = s.mem.get((('glob', 'jwt_ops'), ''))
+            if final is None:
+                final = it.load(s, ('glob', 'jwt_ops'), '')
             if want == 'first':
                 if first is None and isinstance(final, Ref):
                     first = final.loc
